@@ -67,6 +67,60 @@ class SelfModel:
         raise Undecided("attribute %s of the composite model" % attr)
 
 
+class _ClsModel:
+    def __init__(self, name):
+        self.name = name
+
+    def m_getattr(self, it, attr):
+        if attr == "__name__":
+            return self.name
+        raise Undecided("attribute %s of a class model" % attr)
+
+    def m_str(self, it):
+        return "<class %s>" % self.name
+
+
+class EstModel:
+    """A component object: a forecaster (instance of BaseForecaster) or something else (e.g. a regressor / transformer)."""
+
+    def __init__(self, kind):
+        self.kind = kind
+
+    def m_isinstance(self, it, c):
+        nm = getattr(c, "name", None) or getattr(getattr(c, "node", None), "name", None) or str(c)
+        return self.kind == "forecaster" and "BaseForecaster" in str(nm)
+
+    def m_getattr(self, it, attr):
+        if attr == "__class__":
+            return _ClsModel("NaiveForecaster" if self.kind == "forecaster" else "LinearRegression")
+        raise Undecided("attribute %s of a component model" % attr)
+
+    def m_str(self, it):
+        return "<%s>" % self.kind
+
+    def __repr__(self):
+        return "<%s>" % self.kind
+
+
+class CompositeModel:
+    """``self`` of a heterogeneous ensemble: `forecasters` plus a `_check_names` that accepts (names are judged separately)."""
+
+    def __init__(self, forecasters):
+        self.forecasters = forecasters
+
+    def m_getattr(self, it, attr):
+        if attr == "forecasters":
+            return self.forecasters
+        if attr == "_check_names":
+            return Builtin(lambda names: None, "_check_names")
+        if attr == "__class__":
+            return _ClsModel("EnsembleForecaster")
+        raise Undecided("attribute %s of the composite model" % attr)
+
+    def __repr__(self):
+        return "self(forecasters=%r)" % (self.forecasters,)
+
+
 def _run(repo, path, qual, args, kwargs=None):
     it = Interp(repo)
     m = repo.module(path)
@@ -167,6 +221,15 @@ def run_all(ctx, repo, rule="R2", only=None):
         ([me, ["a__b"]], None, "reject"), ([me, ["a", "x__"]], None, "reject"), ([me, ["__x", "a"]], None, "reject"),
         ([me, ["n_jobs"]], None, "reject"), ([me, ["a", "forecasters"]], None, "reject")],
         "_check_names (duplicates, constructor-argument names, names containing `__`)"))
+    F, X = (lambda: EstModel("forecaster")), (lambda: EstModel("other"))
+    FM = "sktime/forecasting/base/_meta.py"
+    jobs.append(("_check_forecasters", FM, "_HeterogenousEnsembleForecaster._check_forecasters", [
+        ([CompositeModel([("a", F()), ("b", F())])], None, ("accept", Ellipsis)), ([CompositeModel([("a", F())])], None, ("accept", Ellipsis)),
+        ([CompositeModel([("a", F()), ("b", None)])], None, ("accept", Ellipsis)), ([CompositeModel([("a", "drop"), ("b", F())])], None, ("accept", Ellipsis)),
+        ([CompositeModel([("a", F()), ("b", X())])], None, "reject"), ([CompositeModel([("a", X()), ("b", F())])], None, "reject"),
+        ([CompositeModel([("a", F()), ("b", F()), ("c", X())])], None, "reject"), ([CompositeModel([("a", None), ("b", "drop")])], None, "reject"),
+        ([CompositeModel([])], None, "reject"), ([CompositeModel(None)], None, "reject"), ([CompositeModel((("a", F()),))], None, "reject")],
+        "_check_forecasters (every member a forecaster or None/'drop', not all dropped, a non-empty list)"))
     for path, qual, pname in ((REDUCE, "_check_strategy", "strategy"), (REDUCE, "_check_scitype", "scitype"), (EVAL, "_check_strategy", "strategy")):
         members = _literal_members(repo, path, qual, pname)
         if not members:
